@@ -211,7 +211,7 @@ def k1_queries(num, tier, only=None):
 RANGE_ASPECTS = {
     1: (('find_range', 'find_range_fill', 'insert_range'), (18003, 18004, 18005, 18006, 18010), None),
     3: (('insert_range', 'erase_range'), (18009,), None),
-    4: (('find_range', 'find_range_fill'), (18004, 18006, 18011), plan.TTL_CONTS),
+    4: (('find_range', 'find_range_fill', 'insert_range'), (18004, 18006, 18011), plan.TTL_CONTS),
     5: (('find_range', 'find_range_fill', 'insert_range'), (18004, 18006, 18011), plan.TTL_CONTS),
     9: (('insert_range',), (18001, 18009, 18010, 18011), None),
     10: (('find_range', 'find_range_fill', 'insert_range'), (18012,), ('lru', 'tlru', 'utlru')),
@@ -242,6 +242,7 @@ def k5_queries(num, tier, only=None):
             if only and cont not in only:
                 continue
             ns = [2] if (tier == 'quick' or cont in heavy) else [2, 3]
+            combos = []
             for n in ns:
                 for rm in plan.RMETHODS:
                     if tier == 'quick':
@@ -249,8 +250,20 @@ def k5_queries(num, tier, only=None):
                     else:
                         rlens = [2] if cont in heavy else [2, 3]
                     for rlen in rlens:
-                        for p in (18, 99):
-                            qs.append(plan.k5_query(cont, 1, n, p, rmethod=rm, rlen=rlen, timeout=to))
+                        combos.append((n, rm, rlen))
+            # two-element range inserts of the heavier containers at capacity 1 (the second element evicts / follows the first):
+            # affordable, and enough to see e.g. a TTL or an allow mode taken from the first element only
+            if cont in heavy and cont != 'lfuda' and tier == 'quick':
+                combos.append((1, 'insert_range', 2))
+            for n, rm, rlen in combos:
+                ut_split = cont in ('utmap', 'utset') and rm == 'insert_range' and rlen >= 2
+                for p in (18, 99):
+                    qs.append(plan.k5_query(cont, 1, n, p, rmethod=rm, rlen=rlen, timeout=to,
+                                            extra=({'KF_TTL0': 0} if (ut_split and p == 18) else None), tag=('_ttlpos' if (ut_split and p == 18) else '')))
+                if ut_split and num == 18:
+                    q = plan.k5_query(cont, 1, n, 18, rmethod=rm, rlen=rlen, timeout=to, extra={'KF_TTL0': 1}, tag='_ttl0')
+                    q.meta['kf_probe'] = 'ut-ttl0'
+                    qs.append(q)
     elif num == 17:
         # the purge-first rule of ut_map / ut_set also binds their range forms (clause 17006 in rel_clauses.hpp)
         for cont in ('utmap', 'utset'):
@@ -796,9 +809,9 @@ def finish(ev, num, tier, qs, known, extra_violations=()):
         if not key:
             continue
         ev.add_query(q, 'known-finding probe')
-        if q.result.status != 'fail' or q.meta['kind'] != 'k1':
+        if q.result.status != 'fail' or q.meta['kind'] not in ('k1', 'k5'):
             continue
-        ok, path, info = lift_and_replay(ev, num, q)
+        ok, path, info = lift_and_replay(ev, num, q, clause_prop=(18 if q.meta['kind'] == 'k5' else None))
         if not ok:
             continue
         listed = [k for k in known if k['prop'] == pid and k['key'] == key]
